@@ -419,6 +419,10 @@ func (h *Hub) topicUnreg(sess *Session, topic string, msg *ClientComMessage, rea
 				}
 				if sess != nil {
 					sess.queueOut(NoErrReply(msg, now))
+					if pud, ok := t.perUser[asUid]; t.cat == types.TopicCatP2P && ok && !pud.deleted {
+						// Notify user's other sessions that the subscription is gone (the offline branch below does the same).
+						presSingleUserOfflineOffline(asUid, msg.Original, "gone", nilPresParams, sess.sid)
+					}
 				}
 
 				if t.isChan {
